@@ -16,7 +16,7 @@ RULE = ('(a) process programs with waits x sequences of K<=3 (thorough 4) of {pa
 RULE += ('; also: failing wake-ups (the failure is the wake-up), kills requested and withdrawn around the wake-up, the stepping task cancelled while blocked in the wait and restarted before / after the wake-up')
 ASSUMPTIONS = ['liveness restated as bounded progress at quiescence (deterministic single-threaded loop, no timers)',
                'first accepted resume(v) of a wait defines the expected continuation argument']
-REQUIRED = ['stepping_task_cancelled_while_paused', 'stepping_task_cancelled_in_wait', 'kill_withdrawn_runs', 'wakeups', 'pause_or_play', 'quiescence_checks', 'wakeup_phase/pausing', 'wakeup_phase/paused', 'wc_runs', 'plain_runs', 'continuations_checked']
+REQUIRED = ['wc_stepping_task_cancelled', 'stepping_task_cancelled_while_paused', 'stepping_task_cancelled_in_wait', 'kill_withdrawn_runs', 'wakeups', 'pause_or_play', 'quiescence_checks', 'wakeup_phase/pausing', 'wakeup_phase/paused', 'wc_runs', 'plain_runs', 'continuations_checked']
 BOUNDS = {'quick': 'plain: 5 wait programs, K<=3 (K=3 sampled); workchains: n<=2 awaitables exhaustive grid, n=3 sampled',
           'thorough': 'plain K<=4 sampled wider, 20 random wait programs; workchains n<=3, K<=3 pause/play'}
 ALPHA_PLAIN = [['pause', 'p'], ['play'], ['resume', ['v']], ['resume', None]]
@@ -71,6 +71,8 @@ def gen_cases(tier, seed):
             # the wake-up and the cancellation of the stepping task in the same loop iteration (the value is in the wait when the
             # cancellation is delivered), optionally after a pause
             plist.append([{'at': s0, 'act': ['resume', ['with-cancel']]}, ab[0], ab[1]])
+            # ... and the other way round: the task is cancelled and, before that cancellation is delivered, the wake-up arrives
+            plist.append([ab[0], {'at': s0, 'act': ['resume', ['after-cancel']]}, ab[1]])
             plist.append([{'at': s0, 'act': ['pause', 'p']}, {'at': s0, 'act': ['resume', ['with-cancel']]}, ab[0], ab[1], {'at': 'q', 'act': ['play']}])
             # a wake-up and a pause before the stepping task wakes up (the pause is carried out together with the move to the
             # continuation), and an observer that plays during that move
@@ -113,6 +115,13 @@ def gen_cases(tier, seed):
         cap = 4000 if tier == 'quick' else 60000
         if len(cases) > cap:
             cases = rng.sample(cases, cap)
+        # the task stepping the workchain is cancelled and, in the same loop iteration, an awaited item completes (before / after the
+        # cancellation); a new stepping task is started afterwards and the other items complete
+        for s in range(0, ns + 1):
+            for first_wake in (True, False):
+                head = [{'at': s, 'act': list(wake[0])}, {'at': s, 'act': ['abort_task']}] if first_wake else [{'at': s, 'act': ['abort_task']}, {'at': s, 'act': list(wake[0])}]
+                plan = head + [{'at': 'q', 'act': ['restart_task']}] + [{'at': 'q', 'act': list(w)} for w in wake[1:]]
+                cases.append({'kind': 'wc', 'name': name, 'program': prog, 'plan': plans.uniq(plan, 'wa'), 'drain': True, 'listener': True, 'aborting': True})
         for c in cases:
             yield c
 
@@ -159,6 +168,7 @@ def run_case(case):
         rec = wcprog.run_case(case)
         viol = judges.judge_c06_wc(rec) + judges.judge_c10(rec)
         obs['wc_runs'] = 1
+        obs['wc_stepping_task_cancelled'] = int(bool(case.get('aborting')))
         obs['continuations_checked'] = sum(len(e[5]) for e in rec['events'] if e[0] == 'trace' and e[1] == 'enter')
         wk = ('complete', 'child')
     for v in viol:
